@@ -295,3 +295,81 @@ Definition C15m_check (c : c15m_case) : verdict :=
           if negb (m_verdict_eqb im (model_match c r)) then DIVERGE "matches-related-rule" else OK
       end
   end.
+
+(* ================= C13c: malformed customize answers (a leg of property C13) =================
+   One controller instance; the parent under test gets the malformed answer on every use:
+   sync-first, sync-retry (same uid and generation), related-object events through the real informer
+   handlers, sync-bumped / sync-bumped-retry after a generation bump.  A second parent ("anchor")
+   with a valid rule keeps the related informer alive and must be woken by every pod event. *)
+Record c13c_use := mkUse {
+  u_kind : string;
+  u_panic : bool;            (* the worker (sync) or the informer handler goroutine (event) panicked *)
+  u_woken : bool;            (* events: the anchor parent was enqueued *)
+  u_round : option round }.
+
+Record c13c_case := mkC13c { c13c_cfg : ccfg; c13c_uses : list c13c_use; c13c_flags : list string }.
+
+Definition is_p1_sync (u : c13c_use) : bool :=
+  mem_str (u_kind u) ["sync-first"; "sync-retry"; "sync-bumped"; "sync-bumped-retry"].
+
+Definition p1_rounds (c : c13c_case) : list round :=
+  flat_map (fun u => if is_p1_sync u then match u_round u with Some r => [r] | None => [] end else []) (c13c_uses c).
+
+Definition round_of (c : c13c_case) (kind : string) : option round :=
+  match find (fun u => String.eqb (u_kind u) kind) (c13c_uses c) with
+  | Some u => u_round u | None => None end.
+
+(* the answer the hook gives the parent under test (the same on every call) *)
+Definition the_answer (c : c13c_case) : option answer :=
+  match flat_map (fun r => flat_map (fun e => match e_call e with
+                                             | CHook HCustomize _ => [e_ans e] | _ => [] end) (r_events r))
+                 (p1_rounds c) with
+  | a :: _ => Some a | [] => None end.
+
+(* the model's reading: does this answer yield a related map for this parent? *)
+Definition answer_rejected (c : ccfg) (k : cache) (a : answer) : bool :=
+  match a, k_parent k with
+  | AHook body, Some parent =>
+      match decode_customize body with
+      | Some rules => negb (is_ok (get_related_objects c k parent rules))
+      | None => true end
+  | _, _ => true
+  end.
+
+(* the controller's own verdict: the sync never reached the sync / finalize hook *)
+Definition round_rejected (r : round) : bool :=
+  match hook_events (r_events r) with [] => true | _ => false end.
+
+Definition round_writes (r : round) : bool :=
+  existsb (fun e => match is_api e with Some q => is_write q | None => false end) (r_events r).
+
+Definition round_panicked (r : round) : bool := sync_result_eqb (r_result r) SPanic.
+
+Definition cached_pair_fail (c : c13c_case) (first second : string) : bool :=
+  match round_of c first, round_of c second with
+  | Some r1, Some r2 => round_rejected r1 && negb (round_rejected r2)
+  | _, _ => false
+  end.
+
+Definition C13c_check (c : c13c_case) : verdict :=
+  let cfg := c13c_cfg c in
+  if existsb (fun u => u_panic u || match u_round u with Some r => round_panicked r | None => false end) (c13c_uses c)
+  then PROPFAIL "panic" else
+  if negb (forallb (fun r => answers_in_domain (r_events r)) (p1_rounds c))
+  then SKIP "label syntax outside the modelled domain" else
+  if existsb (fun r => (round_rejected r ||
+                        match the_answer c with Some a => answer_rejected cfg (r_cache r) a | None => false end) &&
+                       round_writes r) (p1_rounds c)
+  then PROPFAIL "write-after-rejected-customize-answer" else
+  if cached_pair_fail c "sync-first" "sync-retry" || cached_pair_fail c "sync-bumped" "sync-bumped-retry"
+  then PROPFAIL "rejected-answer-accepted-from-cache" else
+  if negb (forallb (fun r => forallb (fun e => saneb (e_call e) (e_ans e)) (r_events r)) (p1_rounds c))
+  then DIVERGE "environment-assumption-sane" else
+  match build_diverges cfg [] (map StSync (p1_rounds c)) 0 with
+  | Some w => DIVERGE w
+  | None =>
+      (* the anchor's rule selects every pod: each pod event wakes it, whatever the other parent's answer *)
+      if existsb (fun u => negb (is_p1_sync u) && match u_round u with None => negb (u_woken u) | Some _ => false end)
+                 (c13c_uses c)
+      then DIVERGE "anchor-parent-not-woken" else OK
+  end.
